@@ -325,6 +325,7 @@ func (i *InsertStatement) Format(opts FormatOptions) string {
 	if i.OnConflict != nil {
 		sb.WriteString(onConflictSQL(i.OnConflict))
 	}
+	sb.WriteString(onDuplicateKeySQL(i.OnDuplicateKey))
 
 	if len(i.Returning) > 0 {
 		sb.WriteString(f.clauseSep())
@@ -1157,7 +1158,15 @@ func formatWith(w *WithClause, f *formatter) string {
 		if len(cte.Columns) > 0 {
 			s += "(" + strings.Join(cte.Columns, ", ") + ") "
 		}
-		s += f.kw("AS") + " ("
+		s += f.kw("AS") + " "
+		if cte.Materialized != nil {
+			if *cte.Materialized {
+				s += f.kw("MATERIALIZED") + " "
+			} else {
+				s += f.kw("NOT MATERIALIZED") + " "
+			}
+		}
+		s += "("
 		if qs, ok := cte.Statement.(Formatter); ok {
 			s += qs.Format(nestedOpts(f.opts))
 		} else {
